@@ -277,8 +277,14 @@ def nat_schema_validator(h):
     from datapackage import Resource
     import tableschema
     types = ['integer', 'number', 'string', 'boolean', 'date']
-    lex = {'integer': ['1', '-7', 'x', '', '1.5', 3], 'number': ['1.5', 'abc', '2', 4.5], 'string': ['a', '', 5],
-           'boolean': ['true', 'maybe', True, 'False'], 'date': ['2020-01-02', '02/01/2020', 'nope']}
+    # native values that Python's == / hash identify although Table Schema does not (1, True, 1.0 ; 0, False, 0.0) are mixed
+    # into every column: an implementation must treat them by type, whatever it saw before in that column
+    lex = {'integer': ['1', '-7', 'x', '', '1.5', 3, 1, True, 1.0, 0, False], 'number': ['1.5', 'abc', '2', 4.5, 1, True, 1.0, 0, False],
+           'string': ['a', '', 5, 1, True], 'boolean': ['true', 'maybe', True, 'False', 1, 0, 1.0, False],
+           'date': ['2020-01-02', '02/01/2020', 'nope']}
+
+    def typed(rows):
+        return [sorted((k, type(v).__name__, repr(v)) for k, v in r.items()) for r in rows]
     pols = {'raise': raise_exception, 'ignore': ignore, 'drop': drop, 'clear': clear, 'default': None}
     for _ in range(h.n(60, 600)):
         nf = h.rng.randint(1, 3)
@@ -318,11 +324,70 @@ def nat_schema_validator(h):
             kw['field_names'] = checked
         got = h.run(lambda: list(schema_validator(res, iter(inp), **kw)))
         if want[0] == 'ok':
-            ok = got[0] == 'ok' and got[1] == want[1]
+            ok = got[0] == 'ok' and typed(got[1]) == typed(want[1])
         else:
             ok = got[0] == 'exc' and got[1] == 'ValidationError' and got[2].index == want[2] and got[2].row == want[3] \
                 and got[2].row is inp[want[2]]
         h.check(ok, SV_FILE + '::schema_validator', (desc['schema'], rows, pol, checked), want, got[:2])
+
+
+def nat_custom_handlers(h):
+    """bounded: custom on_error handlers of the documented shapes -- 4 parameters (res_name, row, i, e) or 5 (.., field), the
+    fifth with or without a default, plain functions and callable objects -- get exactly the arguments they declare, once per
+    offending field, and their answer decides the row"""
+    from dataflows import Flow, set_type, validate
+    calls = []
+
+    def h4(res_name, row, i, e):
+        calls.append(('h4', i, None))
+        return False                      # drop the row
+
+    def h5(res_name, row, i, e, field):
+        calls.append(('h5', i, field.name))
+        row[field.name] = None
+        return True                       # keep the row, offending field nulled
+
+    def h5d(res_name, row, i, e, field=None):
+        calls.append(('h5d', i, field.name if field is not None else None))
+        if field is None:
+            return False
+        row[field.name] = None
+        return True
+
+    class H5:
+        def __call__(self, res_name, row, i, e, field):
+            calls.append(('H5', i, field.name))
+            row[field.name] = None
+            return True
+    for _ in range(h.n(20, 200)):
+        n = h.rng.randint(1, 6)
+        rows = [{'a': h.rng.choice(['1', '2', 'x', '']), 'b': h.rng.choice(['3', 'y', '4'])} for _r in range(n)]
+        name, handler = h.rng.choice([('h4', h4), ('h5', h5), ('h5d', h5d), ('H5', H5())])
+        via = h.rng.choice(['set_type', 'validate'])
+        del calls[:]
+        if via == 'set_type':
+            steps = [set_type('a', type='integer', on_error=handler), set_type('b', type='integer', on_error=handler)]
+        else:
+            from dataflows import update_resource
+
+            def retype(package):
+                for f in package.pkg.descriptor['resources'][0]['schema']['fields']:
+                    f['type'] = 'integer'
+                yield package.pkg
+                yield from package
+            steps = [retype, validate(on_error=handler)]
+        got = h.run(lambda: Flow([dict(r) for r in rows], *steps).results(on_error=None)[0])
+        bad = lambda v: v in ('x', 'y')
+        conv = lambda v: None if v == '' else int(v)
+        if name == 'h4':
+            want = [{'a': conv(r['a']), 'b': conv(r['b'])} for r in rows if not bad(r['a']) and not bad(r['b'])]
+        else:
+            want = [{'a': None if bad(r['a']) else conv(r['a']), 'b': None if bad(r['b']) else conv(r['b'])} for r in rows]
+        ok = got[0] == 'ok' and got[1] == [want]
+        h.check(ok, SV_FILE + '::wrap_handler', (name, via, rows), want, got[1] if got[0] == 'ok' else got[:2])
+        if name != 'h4' and got[0] == 'ok':
+            h.check(all(c[2] in ('a', 'b') for c in calls), SV_FILE + '::wrap_handler', (name, via, 'field argument'), 'field passed',
+                    [c for c in calls if c[2] not in ('a', 'b')][:3])
 
 
 def sym_wrap_handler(vc):
@@ -685,7 +750,7 @@ def nat_validate(h):
 
 ITEMS = [
     Item('schema_validator', sym_schema_validator, [('differential', nat_schema_validator)], SV_FILE + '::schema_validator'),
-    Item('wrap_handler', sym_wrap_handler, [], SV_FILE + '::wrap_handler'),
+    Item('wrap_handler', sym_wrap_handler, [('custom-handlers', nat_custom_handlers)], SV_FILE + '::wrap_handler'),
     Item('handlers', sym_handlers, [], SV_FILE + '::clear'),
     Item('set_type.transformer', sym_set_type_transformer, [], P + 'set_type.py::set_type.transformer'),
     Item('set_type.selection', sym_set_type_selection, [('policy-differential', nat_set_type), ('multi-resource', nat_set_type_multi)],
